@@ -480,10 +480,86 @@ mod imp {
       chk!(r, "ternary_fixpoint_is_the_per_key_equivalence_closure", d.full_contains == c_all && exact(&d.none_get, &c_all) && covering(&d.ind0_get, &c_all, &c_all)
          && covering(&d.ind01_get, &c_all, &c_all) && covering(&d.ind1_get, &c_all, &c_all) && covering(&d.ind12_get, &c_all, &c_all));
    }
+
+   // ---------------------------------------------------------------------------------------------------------------
+   // the union-find alone, over a larger element domain: index_insert on the common structure is EqRel::add on `combined`
+   const D6: usize = 6;
+   /// codes: 0 stop, 1..=30 add(a, b) for the ordered pairs a != b over 6 items (which class survives depends on the order);
+   /// after every add: contains_key over all 36 pairs, the [0] lookup of every element and count_exact against the closure
+   pub fn direct<const L: usize>(s: &mut dyn Src, r: &mut Report) {
+      let mut ops = vec![];
+      let mut stopped = false;
+      for _ in 0..L {
+         let c = s.byte();
+         s.require(c <= 30 && (!stopped || c == 0));
+         if c == 0 {
+            stopped = true;
+         } else {
+            let c = (c - 1) as usize;
+            let a = c / 5;
+            let mut b = c % 5;
+            if b >= a {
+               b += 1;
+            }
+            ops.push((a as u8, b as u8));
+         }
+      }
+      if s.rejected() {
+         return;
+      }
+      r.note(format!("adds = {:?}", ops));
+      let mut e = EqRelIndCommon::<u8>::default();
+      let to_full = ToEqRelInd0_1::<u8>::default();
+      let to_0 = ToEqRelInd0::<u8>::default();
+      let mut reach = [[false; D6]; D6];
+      for &(a, b) in &ops {
+         RelIndexWrite::index_insert(&mut e, (a, b), ());
+         let (a, b) = (a as usize, b as usize);
+         reach[a][b] = true;
+         reach[b][a] = true;
+         reach[a][a] = true;
+         reach[b][b] = true;
+         for k in 0..D6 {
+            for i in 0..D6 {
+               for j in 0..D6 {
+                  if reach[i][k] && reach[k][j] {
+                     reach[i][j] = true;
+                  }
+               }
+            }
+         }
+         let full = to_full.to_rel_index(&e);
+         let ind0 = to_0.to_rel_index(&e);
+         let mut exact = true;
+         let mut rows_ok = true;
+         let mut total = 0;
+         for x in 0..D6 {
+            let mut row: Vec<u8> = ind0.index_get(&(x as u8,)).map(|it| it.map(|(y,)| *y).collect()).unwrap_or_default();
+            row.sort();
+            let want: Vec<u8> = (0..D6).filter(|&y| reach[x][y]).map(|y| y as u8).collect();
+            if row != want {
+               rows_ok = false;
+            }
+            for y in 0..D6 {
+               if reach[x][y] {
+                  total += 1;
+               }
+               if full.contains_key(&(x as u8, y as u8)) != reach[x][y] {
+                  exact = false;
+               }
+            }
+         }
+         chk!(r, "direct_contains_is_the_equivalence_closure", exact);
+         chk!(r, "direct_set_of_is_the_class", rows_ok);
+         chk!(r, "direct_count_exact_is_the_closure_size", e.count_exact() == total);
+      }
+   }
 }
 #[cfg(not(kani))]
-pub use imp::{protocol, protocol3};
+pub use imp::{direct, protocol, protocol3};
 #[cfg(kani)]
 pub fn protocol<const L: usize>(_s: &mut dyn Src, _r: &mut Report) {}
 #[cfg(kani)]
 pub fn protocol3<const L: usize>(_s: &mut dyn Src, _r: &mut Report) {}
+#[cfg(kani)]
+pub fn direct<const L: usize>(_s: &mut dyn Src, _r: &mut Report) {}
